@@ -23,6 +23,8 @@
   C12-KINDS   (path-sensitive kind inference) Python's ``==`` between the operands of ``_eq`` is
               reachable only when neither operand can be a bool or both are bools; Python's
               ``<`` in ``_lt`` only with two strings or two non-bool numbers.
+  C12-FALSY   (path-sensitive kind inference) with a nil / undefined operand on either side,
+              every feasible exit of ``_contains`` is ``return False``.
 Not decided: the remaining value tables of _eq / _contains / empty / blank for particular operands.
 """
 
@@ -112,7 +114,7 @@ def _norm_eval(fn_node, ev: str) -> str:
 
 def run(repo: Repo) -> Result:
     res = Result(PID)
-    res.rules = ["C12-TABLE", "C12-ASSOC", "C12-ORDER", "C12-TRUTHY", "C12-TYPEERR", "C12-KINDS"]
+    res.rules = ["C12-TABLE", "C12-ASSOC", "C12-ORDER", "C12-TRUTHY", "C12-TYPEERR", "C12-KINDS", "C12-FALSY"]
     res.explanation = "operator tables, Pratt loop shape, comparator operand order and truthiness discipline decided on the AST of liquid.builtin.expressions.logical and the nodes that branch on conditions"
     res.assumptions = ["value tables of _eq/_lt/_contains/empty/blank are not decided"]
     mod = repo.module(L)
@@ -364,6 +366,30 @@ def run(repo: Repo) -> Result:
         for ln, src, kl, kr in sorted(bad):
             what = "a bool can meet a non-bool in Python's ==, where 1 == True and 0 == False" if fn_name == "_eq" else "operands other than two strings or two non-bool numbers reach Python's <"
             res.add("C12-KINDS", f.qual, f"{src}:{'bool-leak' if 'B' in kl + kr else 'kinds'}", f"{f.qual}: `{src}` is reachable with left in {{{kl}}} and right in {{{kr}}} — {what}", f.file, ln)
+    # ---- C12-FALSY: `contains` with a nil / undefined operand -------------------------------
+    # "nil and undefined are falsy" + "contains ... is false whenever either side is nil or
+    # undefined": with one operand restricted to {none, undefined} every feasible exit of
+    # _contains is `return False` (no other value, no raise).
+    ct = repo.func(f"{L}._contains")
+    exits = {}
+    for n in walk_no_nested(ct.node):
+        if isinstance(n, ast.Return) and n.value is not None:
+            exits[id(n.value)] = n
+        elif isinstance(n, ast.Raise) and n.exc is not None:
+            exits[id(n.exc)] = n
+    for operand, other in (("right", "left"), ("left", "right")):
+        res.ob(f"falsy:{ct.qual}:{operand}")
+        hits = [(n, st, fl) for n, st, fl in path_states(ct.node, {operand: frozenset("NU")}, lambda n: id(n) in exits) if feasible(fl, st, ("left", "right"))]
+        if not hits:
+            raise AnchorMissing(f"{ct.qual}: no exit reachable with a nil {operand} operand; re-derive C12-FALSY")
+        badx = set()
+        for n, st, fl in hits:
+            ex = exits[id(n)]
+            if isinstance(ex, ast.Return) and isinstance(ex.value, ast.Constant) and ex.value.value is False:
+                continue
+            badx.add((ex.lineno, text(ex)[:60], "".join(sorted(fl.var_kinds(st, other)))))
+        for ln, src, ko in sorted(badx):
+            res.add("C12-FALSY", ct.qual, f"{operand}-nil:{src}", f"{ct.qual}: with a nil/undefined {operand} operand (and {other} in {{{ko}}}) `{src}` is reachable — `contains` must be false whenever either operand is nil or undefined", ct.file, ln)
     return res
 
 
